@@ -71,6 +71,10 @@ class DataFrame(Entity, DataSet):
         del self._h5group.group['data']
         self._h5group.create_dataset("data", (n_rows,), dt)
         self.write_direct(farr)
+        units = self._h5group.get_attr("units")
+        if units is not None:
+            # the new column has no unit yet: keep one entry per column
+            self._h5group.set_attr("units", np.append(units, "").astype(util.vlen_str_dtype))
 
     def append_rows(self, data):
         """
